@@ -226,6 +226,9 @@ func (tt *TermTable) computeRange(t *Term) {
 				t.hi = t.a.hi
 			}
 		}
+	case OpConcat:
+		t.lo = t.a.lo<<t.b.w | t.b.lo
+		t.hi = t.a.hi<<t.b.w | t.b.hi
 	case OpIte:
 		t.lo, t.hi = t.b.lo, t.b.hi
 		if t.c.lo < t.lo {
@@ -436,8 +439,75 @@ func (tt *TermTable) Or(a, b *Term) *Term {
 			return b
 		}
 	}
+	if r := tt.orAsConcat(a, b); r != nil {
+		return r
+	}
+	if r := tt.orAsConcat(b, a); r != nil {
+		return r
+	}
 	return tt.mk(OpOr, a.w, a, b, nil, 0)
 }
+// shiftedPart recognises hi = (zext(p) << k) possibly already in concat form
+// and returns (p, k).
+func (tt *TermTable) shiftedPart(x *Term) (*Term, uint8, bool) {
+	if x.op == OpShl && x.b.IsConst() && x.b.k < uint64(x.w) {
+		k := uint8(x.b.k)
+		in := x.a
+		if in.op == OpZExt && uint16(in.a.w)+uint16(k) <= uint16(x.w) {
+			return in.a, k, true
+		}
+		if in.op == OpConcat || in.op == OpExtract || in.op == OpVar {
+			// (in << k) keeps bits [w-k-1:0] of in
+			if in.hi <= mask(x.w-k) {
+				n := uint8(bitsLen(in.hi))
+				if n == 0 {
+					n = 1
+				}
+				return tt.Extract(in, n-1, 0), k, true
+			}
+		}
+	}
+	if x.op == OpZExt && x.a.op == OpConcat {
+		return tt.splitTrailingZeros(x.a)
+	}
+	if x.op == OpConcat {
+		return tt.splitTrailingZeros(x)
+	}
+	return nil, 0, false
+}
+
+// splitTrailingZeros: concat(..., 0:k) -> (prefix, k)
+func (tt *TermTable) splitTrailingZeros(x *Term) (*Term, uint8, bool) {
+	if x.op != OpConcat {
+		return nil, 0, false
+	}
+	if x.b.IsConst() && x.b.k == 0 {
+		return x.a, x.b.w, true
+	}
+	if x.b.op == OpConcat {
+		if p, k, ok := tt.splitTrailingZeros(x.b); ok {
+			return tt.Concat(x.a, p), k, true
+		}
+	}
+	return nil, 0, false
+}
+
+func bitsLen(v uint64) int { return bits.Len64(v) }
+
+// orAsConcat: (zext(p) << k) | q  with q < 2^k  ==>  zext(concat(p, q[k-1:0]))
+func (tt *TermTable) orAsConcat(hiPart, q *Term) *Term {
+	p, k, ok := tt.shiftedPart(hiPart)
+	if !ok || k == 0 || k >= 64 {
+		return nil
+	}
+	if q.hi > mask(k) {
+		return nil
+	}
+	low := tt.Extract(q, k-1, 0)
+	c := tt.Concat(p, low)
+	return tt.ZExt(c, hiPart.w)
+}
+
 func (tt *TermTable) Xor(a, b *Term) *Term {
 	if a.IsConst() && b.IsConst() {
 		return tt.Const(a.w, a.k^b.k)
@@ -563,13 +633,23 @@ func (tt *TermTable) Extract(a *Term, hi, lo uint8) *Term {
 			}
 		}
 	case OpLShr:
-		// extract low bits of (zext(x) >> c)
-		if a.b.IsConst() && a.a.op == OpZExt && lo == 0 {
+		// extract of (x >> c) = extract of x at shifted position
+		if a.b.IsConst() && a.b.k < uint64(a.w) {
 			c := uint8(a.b.k)
-			inner := a.a.a
-			if uint16(hi)+uint16(c) < uint16(inner.w) {
-				return tt.Extract(inner, hi+c, c)
+			if uint16(hi)+uint16(c) < uint16(a.w) {
+				return tt.Extract(a.a, hi+c, lo+c)
 			}
+		}
+	case OpShl:
+		if a.b.IsConst() && a.b.k < uint64(a.w) {
+			c := uint8(a.b.k)
+			if lo >= c {
+				return tt.Extract(a.a, hi-c, lo-c)
+			}
+			if hi < c {
+				return tt.Const(w, 0)
+			}
+			return tt.Concat(tt.Extract(a.a, hi-c, 0), tt.Const(c-lo, 0))
 		}
 	}
 	return tt.mk(OpExtract, w, a, nil, nil, uint64(hi)<<8|uint64(lo))
@@ -611,7 +691,42 @@ func (tt *TermTable) Concat(a, b *Term) *Term {
 	if a.IsConst() && b.IsConst() {
 		return tt.Const(a.w+b.w, a.k<<b.w|b.k)
 	}
+	if a.IsConst() && a.k == 0 {
+		return tt.ZExt(b, a.w+b.w)
+	}
+	// adjacent extracts of the same term
+	if a.op == OpExtract {
+		ah, al := uint8(a.k>>8), uint8(a.k&0xff)
+		if b.op == OpExtract && b.a == a.a {
+			bh, bl := uint8(b.k>>8), uint8(b.k&0xff)
+			if al == bh+1 {
+				return tt.Extract(a.a, ah, bl)
+			}
+		}
+		if b.op == OpConcat && b.a.op == OpExtract && b.a.a == a.a {
+			bh, bl := uint8(b.a.k>>8), uint8(b.a.k&0xff)
+			if al == bh+1 {
+				return tt.Concat(tt.Extract(a.a, ah, bl), b.b)
+			}
+		}
+		// whole low part is the rest of the term
+		if b == tt.lowOf(a.a, al) {
+			return tt.Extract(a.a, ah, 0)
+		}
+	}
+	// right-associate: concat(concat(x,y),z) = concat(x, concat(y,z))
+	if a.op == OpConcat {
+		return tt.Concat(a.a, tt.Concat(a.b, b))
+	}
 	return tt.mk(OpConcat, a.w+b.w, a, b, nil, 0)
+}
+
+// lowOf returns the canonical term for x[al-1:0] if al > 0 (else nil)
+func (tt *TermTable) lowOf(x *Term, al uint8) *Term {
+	if al == 0 {
+		return nil
+	}
+	return tt.Extract(x, al-1, 0)
 }
 
 func (tt *TermTable) Ite(c, a, b *Term) *Term {
